@@ -150,7 +150,7 @@ def several_in_one_file(ch, hh, ctx):
     """dump_all / load_all: the hand next to copies of itself that differ in a field, in one file."""
     import dataclasses
     hands = [hh]
-    for k in range(1 + ch.pick('file.more', 2)):
+    for k in range(1 + ch.pick('file.more', 3) if ch.pick('file.long', 3) else 9 + ch.pick('file.many', 6)):
         hands.append(dataclasses.replace(hh, hand=1000 + k, actions=list(hh.actions[:len(hh.actions) // (k + 1)])))
     buf = io.BytesIO()
     try:
@@ -286,6 +286,11 @@ def run(ch, ctx):
         game = world.game
         hh = HandHistory.from_game_state(game, st, compression, **fields)
         hh2, text = roundtrip(hh, 'terminal history')
+        supplied = {k: v for k, v in fields.items() if k.startswith('_')}
+        for what, h in (('written', hh), ('read back', hh2)):
+            if h.user_defined_fields != supplied:
+                raise Violation('C16.user_fields', f'the history {what} carries user-defined fields '
+                                f'{sorted(h.user_defined_fields)}, the hand was saved with {sorted(supplied)}', rule='user_fields')
         end = replay_to_end(hh2, 'terminal history')
         compare(st, end, 'terminal history')
         if ch.chance('c16.inf', 1, 3):
